@@ -550,6 +550,9 @@ func c04Scenario(r *Rand) *Workload {
 	}}
 	kind := Pick(r, []string{"envelope-on-scalar", "envelope-on-array", "unfold-twice", "compose-on-alias", "dataquery-not-a-struct", "dataquery-alias",
 		"template-loop:include", "template-loop:includeIfExists", "template-loop:template"})
+	if forcedScenario != "" {
+		kind = forcedScenario
+	}
 	switch kind {
 	case "template-loop:include", "template-loop:includeIfExists", "template-loop:template":
 		// a user template that reaches itself: every way of calling a template has to end in an error
@@ -593,6 +596,11 @@ func c04Scenario(r *Rand) *Workload {
 		if json.Unmarshal([]byte(cw.Files["in/gen_dashboard/schema.json"]), &doc) == nil {
 			if defs, ok := doc["definitions"].(map[string]any); ok {
 				defs["PanelAlias"] = map[string]any{"$ref": "#/definitions/Panel"}
+				if root, ok := defs["Root"].(map[string]any); ok {
+					if props, ok := root["properties"].(map[string]any); ok {
+						props["f_PanelAlias"] = map[string]any{"$ref": "#/definitions/PanelAlias"}
+					}
+				}
 			}
 			b, _ := json.MarshalIndent(doc, "", " ")
 			cw.Files["in/gen_dashboard/schema.json"] = string(b)
@@ -620,6 +628,8 @@ func c04Scenario(r *Rand) *Workload {
 	w.Name = "scenario:" + kind + " -> " + strings.Join(w.LangNames(), ",")
 	return w
 }
+
+var forcedScenario string
 
 var inputConditions = []string{
 	"true", "1 < 2", "false", `sprintf("%s-%d", "a", 1) == "a-1"`, `semver("1.2.3").Major >= 1`, `semver("v10.0.0-pre").GT(semver("9.5.1"))`,
@@ -723,7 +733,8 @@ func init() {
 					w.TplData["Cyclic"] = Pick(r, []string{"%self%", "%ping%", "%same%"})
 					w.OutputDir = "out/%l/" + Pick(r, []string{"%self%", "%pong%", "x"})
 				}
-				if sr := r.Side("scenario"); sr.Chance(1, 25) {
+				if sr := r.Side("scenario"); sr.Chance(1, 25) || ctx.Opt["scenario"] != "" {
+					forcedScenario = ctx.Opt["scenario"] // debugging aid: -opt scenario=<kind>
 					w = c04Scenario(sr)
 				}
 				if sr := r.Side("input-condition"); sr.Chance(1, 6) && len(w.Inputs) > 0 {
@@ -741,6 +752,9 @@ func init() {
 				dry := c04Exec(dir, p, true)
 				ctx.Account(dry.Ex)
 				res.Execs++
+				if ctx.Opt["scenario"] != "" {
+					fmt.Fprintf(os.Stderr, "scenario: %s mode=%s err=%s keys=%v\n", w.Name, p.Mode, truncate(dry.Ex.ErrString(), 300), dry.Keys)
+				}
 				for k, v := range dry.Keys {
 					// a crash without any fault is reported as such
 					res.Violations = append(res.Violations, Violation{Key: c04Key(k), What: fmt.Sprintf("%s (no fault injected; %s)", v, w.Name), Payload: *p})
